@@ -118,6 +118,11 @@ func (v *Valuation) term(x ssa.Value, depth int) aterm {
 				// the same constant on both sides (a phi resolved to nil compared with nil)
 				return aterm{key: "true", neg: y.Op == token.NEQ}
 			}
+			if strings.HasPrefix(a.key, "const:") && strings.HasPrefix(b.key, "const:") && a.key != b.key {
+				// two different constants (a state variable assigned constants in the branches, resolved by the path to the
+				// one it came through, compared with a constant behind the merge): the comparison is decided
+				return aterm{key: "true", neg: y.Op == token.EQL}
+			}
 			if (a.key == "nil" && b.nonnil) || (b.key == "nil" && a.nonnil) {
 				// x == nil for a value known to be non-nil
 				return aterm{key: "true", neg: y.Op == token.EQL}
